@@ -18,8 +18,12 @@
 
   SHARED with the model (said here, not hidden): `CoercesTo` is the model's coercion of constants `valueFromAst`
   (theorems against the declarative coercion are C07's); the lookup helpers `lookupLast` / `List.find?`; the merge of
-  extensions `merged` and the roots `declaredRoots` of Spec/SdlSpec.lean (both spec-side definitions; `declaredRoots`
-  still uses `Sdl.Roots.set` / `Sdl.defaultRoots`).
+  extensions `merged` of Spec/SdlSpec.lean (a spec-side definition).  The roots are the relation `DeclaresRoot` (the
+  last `operation: Type` binding of the `schema` / `extend schema` blocks; without a `schema` block the object type with
+  the default name) — `Sdl.Roots.set` / `Sdl.defaultRoots` / `declaredRoots` do not occur.
+
+  Two clauses are the LIBRARY's reading and known findings, modelled as the code is: `@deprecated(reason: null)` declares
+  NO deprecation (finding C11/2), and `fieldReason` below.
 
   One clause is the LIBRARY's, not the GraphQL specification's, and is kept visible as `fieldReason`:
   `Field.deprecated = bool(deprecation_reason)`, so `@deprecated(reason: "")` does not deprecate a FIELD (it does
@@ -103,14 +107,32 @@ structure DeclaresDirective (env : Env) (d : DirDef) (r : DirectiveD) : Prop whe
   desc : r.desc = d.desc
   args : Each₂ (DeclaresArg env) d.args r.args
 
+/-- every `operation: Type` binding of the document, in order: the (first) `schema` block, then the `extend schema` blocks -/
+def declaredOps (doc : Doc) : List (String × String) :=
+  (match schemaDefs doc with | sd :: _ => sd.ops | [] => []) ++ (schemaExtensions doc).flatMap (·.ops)
+
+/-- the last binding of `op` -/
+def lastBinding (ops : List (String × String)) (op : String) : Option String := (ops.reverse.find? (·.1 == op)).map (·.2)
+
+/-- the root type of operation `op`, whose default type name is `dflt`: the LAST binding of `op` in the document; without
+    any binding: nothing if there is a `schema` block, else the OBJECT type named `dflt` if the document declares one -/
+def DeclaresRoot (doc : Doc) (types : List TypeD) (op dflt : String) (r : Option String) : Prop :=
+  match lastBinding (declaredOps doc) op with
+  | some ty => r = some ty
+  | none =>
+    match schemaDefs doc with
+    | _ :: _ => r = none
+    | [] => ((∃ t ∈ types, t.name = dflt ∧ t.kind = .object) → r = some dflt) ∧
+            ((¬ ∃ t ∈ types, t.name = dflt ∧ t.kind = .object) → r = none)
+
 /-- **the declared content, declaratively**: one registered type per definition, in document order, each the content of
-    the definition merged with its extensions; one directive per directive definition; the declared roots -/
+    the definition merged with its extensions; one directive per directive definition; the root operation types (`DeclaresRoot`) -/
 structure DeclaredSpec (doc : Doc) (c : SchemaD) : Prop where
   types : Each₂ (DeclaresType (Env.of (merged doc))) (merged doc) c.types
   directives : Each₂ (DeclaresDirective (Env.of (merged doc))) (dirDefs doc) c.directives
-  query : c.query = (declaredRoots doc c.types).query
-  mutation : c.mutation = (declaredRoots doc c.types).mutation
-  subscription : c.subscription = (declaredRoots doc c.types).subscription
+  query : DeclaresRoot doc c.types "query" "Query" c.query
+  mutation : DeclaresRoot doc c.types "mutation" "Mutation" c.mutation
+  subscription : DeclaresRoot doc c.types "subscription" "Subscription" c.subscription
   noResolver : c.defaultResolver = none
 
 end PyGql.SdlSpec
